@@ -1,2 +1,180 @@
-"""Monitors: the step-wise content of a property evaluated directly on the implementation's trace.
-Each monitor takes (scripts, stats) and yields (script, step, message) for every failure."""
+"""Monitors: the step-wise content of a property evaluated directly on the implementation's trace
+(never on the model's output).  Each monitor takes (scripts, stats) and yields (script, step, message)
+for every step on which the property fails for the real code; that step, with the script prefix leading
+to it, is the concrete failing input written to the replay file."""
+import re
+
+ADMIN_ROLE = {
+    'UpdateOwner': 'owner', 'UpdateAttesterManager': 'owner', 'UpdatePauser': 'owner', 'UpdateTokenController': 'owner',
+    'UpdateMaxMessageBodySize': 'owner', 'AddRemoteTokenMessenger': 'owner', 'RemoveRemoteTokenMessenger': 'owner',
+    'EnableAttester': 'attmgr', 'DisableAttester': 'attmgr', 'UpdateSignatureThreshold': 'attmgr',
+    'PauseBurningAndMinting': 'pauser', 'UnpauseBurningAndMinting': 'pauser',
+    'PauseSendingAndReceivingMessages': 'pauser', 'UnpauseSendingAndReceivingMessages': 'pauser',
+    'LinkTokenPair': 'tokctl', 'UnlinkTokenPair': 'tokctl', 'SetMaxBurnAmountPerMessage': 'tokctl',
+    'AcceptOwner': 'pending',
+}
+PRODUCERS = ('SendMessage', 'SendMessageWithCaller', 'DepositForBurn', 'DepositForBurnWithCaller')
+FLOWS = PRODUCERS + ('ReplaceMessage', 'ReplaceDepositForBurn', 'ReceiveMessage')
+
+
+def args_of(inp):
+    a = {}
+    for w in inp.split(' '):
+        if '=' in w:
+            k, v = w.split('=', 1)
+            a[k] = v
+    return a
+
+
+def state_of(lines):
+    """typed view of a list of state-dump lines"""
+    st = {'role': {}, 'flag': {}, 'num': {}, 'attester': [], 'limit': [], 'pair': [], 'messenger': [], 'nonce': [], 'bal': {}, 'raw': sorted(lines)}
+    for l in lines:
+        ws = l.split(' ')
+        a = args_of(l)
+        k = ws[0]
+        if k in ('role', 'flag', 'num'):
+            st[k][a['name']] = a['v']
+        elif k == 'bal':
+            st['bal'][a['k']] = int(a['amt'])
+        elif k in st and isinstance(st[k], list):
+            st[k].append(a)
+    return st
+
+
+def walk(scripts):
+    """yield (script, n, input line, type, args, pre-state lines, observations) for every step, in order"""
+    for sc in scripts:
+        cur = []
+        order = sorted(sc.step_pos.items(), key=lambda kv: kv[1])
+        # state produced by BAL lines (step id "0") is folded in lazily: BAL dumps come as I S 0 lines
+        for n, _pos in order:
+            inp = sc.step_input[n]
+            ws = inp.split(' ')
+            obs = sc.steps.get(n, {})
+            ty = ws[2] if ws[0] in ('TX', 'Q', 'CODEC') and len(ws) > 2 else ws[0]
+            pre = cur
+            yield sc, n, inp, ws[0], ty, args_of(inp), pre, obs
+            if ws[0] in ('TX', 'G-END') and ('S' in obs or ws[0] == 'TX'):
+                cur = obs.get('S', [])
+            bal = sc.bal_after.get(n)
+            if bal is not None:
+                cur = bal
+
+
+def outcome(obs):
+    r = obs.get('R', [''])[0]
+    return r.split(' ')[0] if r else ''
+
+
+def hexstr(h):
+    return bytes.fromhex(h).decode('latin1')
+
+
+# ---------------- C10 ----------------
+def mon_c10(scripts, stats):
+    for sc, n, inp, cmd, ty, a, pre, obs in walk(scripts):
+        if cmd != 'TX' or ty not in ADMIN_ROLE:
+            continue
+        st = state_of(pre)
+        if not all(r in st['role'] for r in ('owner', 'attmgr', 'pauser', 'tokctl')):
+            continue
+        holder = st['role'].get(ADMIN_ROLE[ty])
+        if holder is not None and holder == a.get('from'):
+            continue
+        stats['mon_c10_unauthorised'] += 1
+        if outcome(obs) != 'err':
+            yield sc, n, 'C10: %s by a submitter who does not hold role %s returned %s' % (ty, ADMIN_ROLE[ty], outcome(obs))
+        elif sorted(obs.get('S', [])) != sorted(pre):
+            yield sc, n, 'C10: rejected unauthorised %s changed the state' % ty
+
+
+# ---------------- C11 ----------------
+def mon_c11(scripts, stats):
+    names = ('owner', 'pending', 'attmgr', 'pauser', 'tokctl')
+    slot = {'UpdateAttesterManager': 'attmgr', 'UpdatePauser': 'pauser', 'UpdateTokenController': 'tokctl'}
+    for sc, n, inp, cmd, ty, a, pre, obs in walk(scripts):
+        if cmd != 'TX':
+            continue
+        r0 = state_of(pre)['role']
+        r1 = state_of(obs.get('S', []))['role']
+        exp = dict(r0)
+        ok = outcome(obs) == 'ok'
+        frm = a.get('from')
+        stats['mon_c11_steps'] += 1
+        if ty == 'UpdateOwner' and ok:
+            if r0.get('owner') != frm:
+                yield sc, n, 'C11: update-owner accepted from a non-owner'
+            exp['pending'] = a['new']
+        elif ty == 'AcceptOwner' and ok:
+            if r0.get('pending') != frm:
+                yield sc, n, 'C11: accept-owner accepted from an account that is not the pending owner'
+            exp['owner'] = r0.get('pending')
+            exp.pop('pending', None)
+        elif ty in slot and ok:
+            if r0.get('owner') != frm:
+                yield sc, n, 'C11: %s accepted from a non-owner' % ty
+            exp[slot[ty]] = a['new']
+        if exp != r1:
+            diff = [k for k in names if exp.get(k) != r1.get(k)]
+            yield sc, n, 'C11: role slots %s moved outside the lifecycle on %s (%s)' % (','.join(diff), ty, outcome(obs))
+        # the documented lifecycle also says when the role transactions must succeed
+        if ty == 'AcceptOwner' and not ok and r0.get('pending') == frm and 'owner' in r0:
+            yield sc, n, 'C11: the pending owner could not accept'
+
+
+# ---------------- C13 ----------------
+def mon_c13(scripts, stats):
+    for sc, n, inp, cmd, ty, a, pre, obs in walk(scripts):
+        if cmd != 'TX':
+            continue
+        s0, s1 = state_of(pre), state_of(obs.get('S', []))
+        def inv(s):
+            t = s['num'].get('threshold')
+            return t is not None and 1 <= int(t) <= len(s['attester'])
+        if inv(s0):
+            stats['mon_c13_steps'] += 1
+            if not inv(s1):
+                yield sc, n, 'C13: %s (%s) left threshold %s with %d enabled attesters' % (ty, outcome(obs), s1['num'].get('threshold'), len(s1['attester']))
+
+
+# ---------------- C15 ----------------
+def mon_c15(model):
+    """writes recorded by the tracing store service must lie inside the documented write set that the
+    extracted specification (Spec/WriteDoc.v) computes for the concrete request"""
+    def mon(scripts, stats):
+        for sc, n, inp, cmd, ty, a, pre, obs in walk(scripts):
+            if cmd == 'TX':
+                doc = set(model.get(n, {}).get('DW', []))
+                w = set(obs.get('W', []))
+                stats['mon_c15_tx'] += 1
+                if outcome(obs) == 'ok':
+                    extra = sorted(w - doc)
+                    if extra:
+                        yield sc, n, 'C15: %s wrote outside its documented set: %s' % (ty, ' ; '.join(extra)[:300])
+                else:
+                    if sorted(obs.get('S', [])) != sorted(pre):
+                        yield sc, n, 'C15: failed %s changed the state' % ty
+                # the typed state may only differ inside the documented set
+                if outcome(obs) == 'ok':
+                    changed = set(obs.get('S', [])) ^ set(pre)
+                    for l in sorted(changed):
+                        if not any(entry_matches(l, d) for d in doc):
+                            yield sc, n, 'C15: %s changed an entry outside its documented set: %s' % (ty, l[:200])
+                            break
+            elif cmd in ('Q', 'EXPORT'):
+                stats['mon_c15_readonly'] += 1
+                if 'QW' in obs or 'XW' in obs:
+                    yield sc, n, 'C15: %s wrote to the store' % ty
+    return mon
+
+
+def entry_matches(state_line, doc):
+    ws = state_line.split(' ')
+    a = args_of(state_line)
+    d = doc.split(' ')
+    if ws[0] in ('role', 'flag', 'num'):
+        return d[0] == a.get('name')
+    if ws[0] == 'bal':
+        return True
+    return d[0] == ws[0] and len(d) > 1 and d[1] == 'k=' + a.get('k', '')
